@@ -518,12 +518,25 @@ pub fn roundtrip() -> Report {
             if out != out2 { return r("roundtrip", bound, cases, Some("Hermes map: re-serialising the decoded map changes the bytes".into())); }
         }
     }
+    // a decoded map whose names were removed afterwards (tokens keep their old name ids): what is written must still decode, to the same tokens without names
+    {
+        cases += 1;
+        let doc = r#"{"version":3,"sources":["a.js"],"names":["n0","n1"],"mappings":"AAAAA,CAACC;AACA,CAAAD"}"#;
+        let mut sm = match SourceMap::from_slice(doc.as_bytes()) { Ok(m) => m, Err(e) => return r("roundtrip", bound, cases, Some(format!("{doc}: {e}"))) };
+        sm.remove_names();
+        let mut out = vec![];
+        match guarded(|| sm.to_writer(&mut out)) { Ok(Ok(())) => {}, o => return r("roundtrip", bound, cases, Some(format!("after remove_names: to_writer {:?}", o.map(|x| x.map_err(|e| e.to_string()))))) }
+        let back = match guarded(|| SourceMap::from_slice(&out)) { Ok(Ok(m)) => m, o => return r("roundtrip", bound, cases, Some(format!("a decoded map whose names were removed (remove_names) serialises to {} which does not decode again: {:?}", String::from_utf8_lossy(&out), o.map(|x| x.map(|_| ()).map_err(|e| e.to_string()))))) };
+        let a: Vec<_> = sm.tokens().map(|t| (t.get_dst(), t.get_source().map(|s| s.to_string()), t.get_src(), t.get_name().map(|s| s.to_string()))).collect();
+        let b: Vec<_> = back.tokens().map(|t| (t.get_dst(), t.get_source().map(|s| s.to_string()), t.get_src(), t.get_name().map(|s| s.to_string()))).collect();
+        if a != b { return r("roundtrip", bound, cases, Some(format!("after remove_names: tokens {a:?} read back as {b:?}"))); }
+    }
     r("roundtrip", bound, cases, None)
 }
 
 /// C07 writer/reader pair: range flags survive serialisation wherever they sit
 pub fn rmi_roundtrip() -> Report {
-    let bound = "lines of 1..20 tokens on 3 lines (some empty), every single range position, pairs at the ends, a duplicated token before the range token";
+    let bound = "lines of 1..20 tokens on 3 lines (some empty), every single range position, pairs at the ends, a duplicated token before the range token; two lines of 12 tokens (adjacent or one empty line between) with every pair of range positions";
     let mut cases = 0u64;
     for n in 1..=20usize { for line in [0u32, 1, 3] { for dup in [false, true] {
         let mut sets: Vec<Vec<usize>> = (0..n).map(|i| vec![i]).collect();
@@ -542,6 +555,19 @@ pub fn rmi_roundtrip() -> Report {
             let back = match guarded(|| SourceMap::from_slice(&out)) { Ok(Ok(m)) => m, o => return r("rmi_roundtrip", bound, cases, Some(format!("output does not decode: {:?}", o.map(|x| x.map(|_| ()))))) };
             if flags(&sm) != flags(&back) { return r("rmi_roundtrip", bound, cases, Some(format!("{n} tokens on line {line}, range flags at {set:?}, duplicate before = {dup}: flags before {:?} after {:?}", flags(&sm), flags(&back)))); }
         }
+    } } }
+    // two range-carrying lines of 12 tokens: every pair (range position on the first line, range position on the second line); the flags of one line must not leak into the other
+    for i in 0..12usize { for j in 0..12usize { for gap in [1u32, 2] {
+        cases += 1;
+        let mut b = SourceMapBuilder::new(None);
+        for k in 0..12usize { b.add(0, k as u32 * 2, 0, k as u32, Some("a.js"), None, k == i); }
+        for k in 0..12usize { b.add(gap, k as u32 * 2, 1, k as u32, Some("a.js"), None, k == j); }
+        let sm = b.into_sourcemap();
+        let flags = |m: &SourceMap| -> Vec<(u32, u32, bool)> { m.tokens().map(|t| (t.get_dst_line(), t.get_dst_col(), t.is_range())).collect() };
+        let mut out = vec![];
+        match guarded(|| sm.to_writer(&mut out)) { Ok(Ok(())) => {}, o => return r("rmi_roundtrip", bound, cases, Some(format!("two lines of 12 tokens, ranges at {i} / {j}: to_writer {:?}", o.map(|x| x.map_err(|e| e.to_string()))))) }
+        let back = match guarded(|| SourceMap::from_slice(&out)) { Ok(Ok(m)) => m, o => return r("rmi_roundtrip", bound, cases, Some(format!("output does not decode: {:?}", o.map(|x| x.map(|_| ()))))) };
+        if flags(&sm) != flags(&back) { return r("rmi_roundtrip", bound, cases, Some(format!("lines 0 and {gap} with 12 tokens each, range token at index {i} on the first and {j} on the second: range flags (line, col, range) before {:?} after {:?}", flags(&sm).iter().filter(|f| f.2).collect::<Vec<_>>(), flags(&back).iter().filter(|f| f.2).collect::<Vec<_>>()))); }
     } } }
     r("rmi_roundtrip", bound, cases, None)
 }
